@@ -82,7 +82,7 @@ def param_index(fn, e):
     return None
 
 
-def guard_capabilities(prog, fn):
+def guard_capabilities(prog, fn, _depth=0):
     """Which trap guards does calling fn(args) establish?  Returns set of
     ('zero', i): throws arithmetic_error when param i == 0
     ('ovf', i, j): throws arithmetic_error when param j == -1 and param i == min()
@@ -119,7 +119,29 @@ def guard_capabilities(prog, fn):
             for j in minus1:
                 if i != j and len(atoms) == 2:
                     caps.add(("ovf", i, j))
+    caps |= forwarded_capabilities(prog, fn, body, guard_capabilities, _depth)
     return caps
+
+
+def forwarded_capabilities(prog, fn, body, capfn, depth):
+    """a helper that calls guard functions unconditionally with its own parameters establishes their guards too:
+    `check_division(l, r) { check_divide_by_zero(r); check_divide_overflow(l, r); }`"""
+    out = set()
+    if depth >= 2:
+        return out
+    for n in uncond_exprs(body):
+        if n.get("k") != "call" or n.get("op"):
+            continue
+        for g in resolve_callees(prog, fn, n):
+            if g is fn or not g.get("body"):
+                continue
+            sub = capfn(prog, g, depth + 1)
+            args = n.get("args") or []
+            for c in sub:
+                idxs = [param_index(fn, args[i]) if i < len(args) else None for i in c[1:]]
+                if all(i is not None for i in idxs):
+                    out.add((c[0],) + tuple(idxs))
+    return out
 
 
 def resolve_callees(prog, fn, call):
@@ -489,7 +511,7 @@ def run(chk):
 
 # =============================================================================== helpers
 
-def guard_capabilities_pattern(prog, fn):
+def guard_capabilities_pattern(prog, fn, _depth=0):
     """Like guard_capabilities but for an uninstantiated pattern: looks inside `if constexpr` arms whose
     condition is dependent (they are effective for the integral instantiations)."""
     caps = set()
@@ -505,6 +527,7 @@ def guard_capabilities_pattern(prog, fn):
                     fake.update({k: v for k, v in fn.items() if k != "body"})
                     caps.update(guard_capabilities(prog, _FnView(fn, {"k": "block", "s": [x]})))
     scan(fn["body"])
+    caps |= forwarded_capabilities(prog, fn, fn["body"], guard_capabilities_pattern, _depth)
     return caps
 
 
@@ -830,19 +853,43 @@ def routes(prog, chk, r):
     # Binary_Operator / Fold_Right: do_oper(t_ss, m_oper/ t_oper ...) -> Boxed_Number::do_oper(t_oper, lhs, rhs); handlers
     for cls_prefix, label in (("chaiscript::eval::Binary_Operator_AST_Node<", "Binary_Operator"),
                               ("chaiscript::eval::Fold_Right_Binary_Operator_AST_Node<", "Fold_Right")):
-        fs = [f for f in prog.fns if (f.get("cls") or "").startswith(cls_prefix) and f["tk"] == "inst" and
-              calls_named(f, "do_oper", "chaiscript::Boxed_Number")]
+        def kernel_route(f):
+            """(call node in f, function holding the kernel call, kernel call node): the kernel is called in f itself or in one forwarding
+            helper whose every return is the kernel's result"""
+            direct = calls_named(f, "do_oper", "chaiscript::Boxed_Number")
+            if direct:
+                return direct[0], f, direct[0]
+            for n in walk(f.body):
+                if n.get("k") == "call" and n.get("fn") is not None and not n.get("op"):
+                    h = prog.fn_by_id(f, n["fn"])
+                    if h is None or not h.get("body") or not h["file"].startswith("include/chaiscript/language/"):
+                        continue
+                    inner = calls_named(h, "do_oper", "chaiscript::Boxed_Number")
+                    if len(inner) != 1:
+                        continue
+                    rets = [x for x in walk(h["body"]) if x.get("k") == "return" and x.get("e") is not None]
+                    def strip1(e):
+                        e = strip_casts(e)
+                        while e.get("k") == "construct" and len(e.get("args", [])) == 1:
+                            e = strip_casts(e["args"][0])
+                        return e
+                    if rets and all(strip1(x["e"]) is inner[0] for x in rets) and all(param_index(h, a) is not None for a in inner[0]["args"]):
+                        return n, h, inner[0]
+            return None
+        fs = [f for f in prog.fns if (f.get("cls") or "").startswith(cls_prefix) and f["tk"] == "inst" and f["name"] in ("do_oper", "eval_internal") and kernel_route(f)]
         r.anchor(fs, "%s route to Boxed_Number::do_oper" % label)
         chk.touched(fs)
         for f in fs[:1]:
+            c, kf, kc = kernel_route(f)
             flow = FnFlow(f)
-            c = calls_named(f, "do_oper", "chaiscript::Boxed_Number")[0]
-            tr = flow.enclosing(c, "try")
+            tr = FnFlow(kf).enclosing(kc, "try") if kf is not f else flow.enclosing(c, "try")
+            f_handlers = f
+            f = f
             ok = tr is not None
             why = "fast path not inside a try"
             if ok:
                 hs = tr["handlers"]
-                arith = [h for h in hs if "arithmetic_error" in prog.T(f, h.get("t")) if not h.get("all")]
+                arith = [h for h in hs if "arithmetic_error" in prog.T(kf, h.get("t")) if not h.get("all")]
                 ok = bool(arith) and hs.index(arith[0]) == 0 and rethrows(arith[0]) and any(h.get("all") for h in hs)
                 why = "arithmetic_error is not rethrown unchanged ahead of the catch-all that converts kernel errors"
             r.ob("%s::%s/arithmetic_error preserved" % (cls_prefix.rstrip("<"), f["name"]), ok, "%s:%d" % (f["file"], c["l"]), f.q, why)
